@@ -29,7 +29,7 @@ RULE = ("random system bounds/exclusion zone x 1-6 proposals (priorities with ti
         "distinct = canonical case JSON; non-trivial = >=2 proposals and >=2 distinct histories executed")
 REQUIRED_BUCKETS = ["conflicting-set", "conflict-free-set", "zone-straddling-bounds", "all-None-proposals",
                     "ties", "expiry-drops-some", "stale-replaced", "zone-present", "target-on-zone-edge",
-                    "two-groups-share-actors"]
+                    "two-groups-share-actors", "max-age:60s", "max-age:other"]
 REQUIRED_COUNTERS = ["targets_observed", "histories_run", "expiry_checks"]
 ASSUMPTIONS = ["history-freeness is checked for the final live set of each history (latest proposal per actor)"]
 
@@ -47,17 +47,20 @@ def gen(rng: Any, tier: str, i: int) -> Any:
     if rng.random() < 0.08:
         for p in props:
             p["pref"] = p["lo"] = p["hi"] = None
-    # creation times for the expiry sub-check: integers, max age 60
+    # creation times for the expiry sub-check: the maximum proposal age is 60 s (what the actor uses) or another
+    # value (fractional seconds, below one second, a day and more); all times are exact binary multiples of age/60
+    age = rng.choice([60.0, 60.0, 7.5, 0.46875, 86400.0, 129600.0])
+    sc = age / 60.0
     for p in props:
-        p["t"] = float(rng.choice([0, 10, 39, 40, 41, 100]))
+        p["t"] = float(rng.choice([0, 10, 39, 40, 41, 100])) * sc
     # a second component group served by the same algorithm object, with the same actors (same priority and
     # source id) but different ages / values: proposals of one group must never affect the other
     props2 = []
     for p in props:
         if rng.random() < 0.7:
-            props2.append(dict(p, pref=rng.choice([None] + pm.VALS), t=float(rng.choice([0, 10, 39, 40, 41, 100]))))
+            props2.append(dict(p, pref=rng.choice([None] + pm.VALS), t=float(rng.choice([0, 10, 39, 40, 41, 100])) * sc))
     return {"sys": sys, "excl": excl, "props": props, "props2": props2, "oseed": rng.randrange(1 << 30),
-            "drop_at": float(rng.choice([60, 99, 100, 101, 160, 161]))}
+            "drop_at": float(rng.choice([60, 99, 100, 101, 160, 161])) * sc, "age": age}
 
 
 def _target(m: Any, sb: Any) -> float:
@@ -139,7 +142,9 @@ def check(case: dict[str, Any], rec: Any) -> None:
 
     # expiry: proposals with (drop_at - t) > 60 stop counting
     drop_at = case["drop_at"]
-    m = pm.new_matryoshka(60.0)
+    AGE = case.get("age", 60.0)
+    rec.bucket("max-age:60s" if AGE == 60.0 else "max-age:other")
+    m = pm.new_matryoshka(AGE)
     CID2 = frozenset({7})
     props2 = case.get("props2", [])
     order2 = list(props2)
@@ -156,8 +161,8 @@ def check(case: dict[str, Any], rec: Any) -> None:
     if props2:
         rec.bucket("two-groups-share-actors")
         t2 = m.calculate_target_power(CID2, None, sb, True)
-        live2 = [q for q in props2 if not (drop_at - q["t"]) > 60.0]
-        fresh2 = pm.new_matryoshka(60.0)
+        live2 = [q for q in props2 if not (drop_at - q["t"]) > AGE]
+        fresh2 = pm.new_matryoshka(AGE)
         fresh2.calculate_target_power(CID2, pm.mk_proposal({"src": "zz-none", "prio": -99, "pref": None, "lo": None,
                                                             "hi": None, "t": drop_at}, cid=CID2), sb, True)
         for q in live2:
@@ -169,10 +174,10 @@ def check(case: dict[str, Any], rec: Any) -> None:
                           {"after_drop": None if t2 is None else t2.as_watts(),
                            "fresh_with_live_only": None if e2 is None else e2.as_watts(), "drop_at": drop_at,
                            "group2_live": [q["src"] for q in live2], "group2": props2})
-    live = [p for p in props if not (drop_at - p["t"]) > 60.0]
+    live = [p for p in props if not (drop_at - p["t"]) > AGE]
     if len(live) < n:
         rec.bucket("expiry-drops-some")
-    fresh = pm.new_matryoshka(60.0)
+    fresh = pm.new_matryoshka(AGE)
     # the component bucket must exist for a target to be computed at all
     fresh.calculate_target_power(pm.CID, pm.mk_proposal({"src": "zz-none", "prio": -99, "pref": None, "lo": None,
                                                          "hi": None, "t": drop_at}), sb, True)
